@@ -51,3 +51,20 @@ func coreHash(hashFunction HashFunction, out []uint8, typeValue uint32, key []ui
 		misc.SHA256(out, buf)
 	}
 }
+
+// coreHashLong is coreHash for inputs whose total length (type || key || in) does not fit in 32 bits.
+func coreHashLong(hashFunction HashFunction, out []uint8, typeValue uint32, key, in []uint8, n uint32) {
+	buf := make([]uint8, uint64(n)+uint64(len(key))+uint64(len(in)))
+	misc.ToByteLittleEndian(buf, typeValue, n)
+	copy(buf[n:], key)
+	copy(buf[uint64(n)+uint64(len(key)):], in)
+
+	switch hashFunction {
+	case SHAKE_128:
+		misc.SHAKE128(out, buf)
+	case SHAKE_256:
+		misc.SHAKE256(out, buf)
+	case SHA2_256:
+		misc.SHA256(out, buf)
+	}
+}
